@@ -146,6 +146,11 @@ def build(w, s):
             wn.add_valve(l["name"], l["a"], l["b"], diameter=l["diam"], valve_type=t, minor_loss=l["minor"],
                          initial_setting=l["setting"], initial_status=st[l["init"]])
     for n in s["nodes"]:
+        for k, pc in enumerate(n.get("pctl", [])):       # controls on a junction's required pressure
+            C = w.network.controls
+            wn.add_control("preq_%s_%d" % (n["name"], k), C.Control(C.SimTimeCondition(wn, "=", int(pc["thr"])),
+                                                                   C.ControlAction(wn.get_node(n["name"]), "required_pressure", float(pc["val"]))))
+    for n in s["nodes"]:
         lk = n.get("leak")
         if lk and lk["on"]:
             wn.get_node(n["name"]).add_leak(wn, area=lk["area"], discharge_coeff=lk["cd"],
@@ -196,6 +201,9 @@ def rows_of(s, res):
             r["leak"][nm] = float(node["leak_demand"][nm].iloc[i])
             if nm in pdd:
                 pmin, preq, pe = (n["pmin"], n["preq"], n["pexp"]) if n["has_pdd"] else (s["pmin"], s["preq"], s["pexp"])
+                for pc in n.get("pctl", []):
+                    if pc["thr"] <= t:
+                        preq = pc["val"]
                 x = (r["press"][nm] - pmin) / (preq - pmin)
                 r["cert"][nm] = {"x": x if x > 0 else 0.0, "xpow": x ** (pe[0] / pe[1]) if x > 0 else 0.0}
         for l in s["links"]:
@@ -250,6 +258,9 @@ def encode_trace(s, rows, props):
     sc = enc({k: v for k, v in s.items() if k not in ("rules",)})
     sc["props"] = list(props)
     sc["interp"] = bool(s.get("interp", False))
+    for nd, raw in zip(sc["nodes"], s["nodes"]):
+        if raw["type"] == "J":
+            nd["pctl"] = [{"thr": int(pc["thr"]), "val": common.num(float(pc["val"]))} for pc in raw.get("pctl", [])]
     # TLC cannot read empty JSON objects as records reliably: make sure patterns has at least one key
     if not sc["patterns"]:
         sc["patterns"] = {"_none": []}
